@@ -66,18 +66,18 @@ type asExec struct {
 	sys *actor.System
 	c   *ctl.Ctl
 
-	mu      sync.Mutex
-	events  []map[string]any
-	nextID  int
-	refs    map[string]vivid.ActorRef
-	mbox    map[string]*mailbox.UnboundedMailbox
-	restarts map[string]int // completed OnRestarted hooks per actor
-	inst    map[string]int // instance counter per actor (provider)
-	paths   map[string]string // path -> name
-	gated   map[*mailbox.UnboundedMailbox]string
-	sysOf   map[*mailbox.UnboundedMailbox]bool
-	stuck   string
-	held    map[string]vivid.ActorRef
+	mu       sync.Mutex
+	events   []map[string]any
+	nextID   int
+	refs     map[string]vivid.ActorRef
+	mbox     map[string]*mailbox.UnboundedMailbox
+	restarts map[string]int    // completed OnRestarted hooks per actor
+	inst     map[string]int    // instance counter per actor (provider)
+	paths    map[string]string // path -> name
+	gated    map[*mailbox.UnboundedMailbox]string
+	sysOf    map[*mailbox.UnboundedMailbox]bool
+	stuck    string
+	held     map[string]vivid.ActorRef
 }
 
 func (x *asExec) ev(e map[string]any) {
@@ -624,12 +624,12 @@ func (x *asExec) quiescent(label string) {
 }
 
 type asRun struct {
-	Events   []map[string]any
-	Steps    int
-	Conform  int
-	Mismatch int
-	Drift    int
-	Stuck    string
+	Events        []map[string]any
+	Steps         int
+	Conform       int
+	Mismatch      int
+	Drift         int
+	Stuck         string
 	FirstMismatch string
 }
 
